@@ -80,6 +80,10 @@ func scheduler(name string, r *rand.Rand) graphql.WorkScheduler {
 	return &seqScheduler{mode: name, r: r}
 }
 
+// NewSeqScheduler returns a scheduler that runs every work unit on the calling goroutine
+// (mode fifo | lifo), so that a panic inside the executor itself can be recovered by the caller.
+func NewSeqScheduler(mode string) graphql.WorkScheduler { return &seqScheduler{mode: mode} }
+
 var schedNames = []string{"stock", "fifo", "lifo", "rand", "conc"}
 
 // ---- records ----
